@@ -420,9 +420,7 @@ func (w *world) drive() {
 	w.releaseMs = int64(time.Since(w.start) / time.Millisecond)
 	w.logf("release in order %v", sc.Order)
 	w.mu.Unlock()
-	landWait := 75
 	if w.pl != nil && w.pl.hangup > 0 {
-		landWait = 10 // a block of several megabytes takes a while; the others are not kept waiting for it
 		go func() {
 			lo, hi := w.pl.span[0], w.pl.span[1]
 			for t := 0; t < 20000 && !(pool.VerifHasBlock(lo) && pool.VerifHasBlock(hi)); t++ {
@@ -438,21 +436,83 @@ func (w *world) drive() {
 			}
 		}()
 	}
+	// Every released response must be taken by the pool (else its peer had already been
+	// dropped, e.g. timed out on a slow machine, and the scenario was not set up).
+	landed := func(h int64, reqBefore int) bool {
+		if pool.VerifHasBlock(h) {
+			return true
+		}
+		if ph, _, _ := pool.GetStatus(); ph > h {
+			return true // already applied
+		}
+		w.mu.Lock()
+		n := w.reqCount[h]
+		w.mu.Unlock()
+		return n > reqBefore // taken, rejected and requested again
+	}
+	mayMiss := map[string]bool{"nil-header": true, "nil-block": true, "hdr-height": true, "served-prev": true, "served-next": true}
+	maxWait := time.Duration(w.sc.timeoutS()) * time.Second / 2
+	afterTamper := false
 	for _, x := range order {
 		for _, hd := range hs {
 			if hd.req != x {
 				continue
 			}
-			w.mu.Lock()
-			peer := hd.sp.peer
-			w.mu.Unlock()
-			send(peer, &bc.VerifBlockResponseMessage{Block: hd.block})
 			lands := x
 			if hd.block != nil && hd.block.Header != nil {
 				lands = hd.block.Height
 			}
-			for t := 0; t < landWait && !pool.VerifHasBlock(lands); t++ {
+			w.mu.Lock()
+			peer := hd.sp.peer
+			before := w.reqCount[lands]
+			w.mu.Unlock()
+			occupied := pool.VerifHasBlock(lands)
+			tampered := !hd.sp.honest && w.pl != nil && w.pl.resp[x] == hd.block
+			big := tampered && w.pl.hangup > 0
+			send(peer, &bc.VerifBlockResponseMessage{Block: hd.block})
+			if big {
+				afterTamper = true
+				// a block of a megabyte takes a while; the others are not kept waiting for it
+				go func(h int64, before int) {
+					dl := time.Now().Add(2 * maxWait)
+					for !landed(h, before) {
+						if time.Now().After(dl) {
+							w.mu.Lock()
+							if w.invalid == "" {
+								w.invalid = "the large block was not taken by the pool (its peer had been dropped before)"
+							}
+							w.mu.Unlock()
+							return
+						}
+						time.Sleep(2 * time.Millisecond)
+					}
+				}(lands, before)
+				continue
+			}
+			// once a tampered response is in, the node may legitimately drop peers (also honest
+			// ones: it blames the server of the block before), so later responses need not land
+			must := !occupied && !(tampered && mayMiss[sc.Kind]) && !afterTamper
+			if tampered {
+				afterTamper = true
+			}
+			dl := time.Now().Add(150 * time.Millisecond)
+			if must {
+				dl = time.Now().Add(maxWait)
+			}
+			ok := false
+			for {
+				if ok = landed(lands, before); ok || time.Now().After(dl) {
+					break
+				}
 				time.Sleep(2 * time.Millisecond)
+			}
+			if must && !ok {
+				w.mu.Lock()
+				if w.invalid == "" {
+					w.invalid = fmt.Sprintf("the response of %s for height %d was not taken by the pool (the peer had been dropped before)", hd.sp.name, x)
+				}
+				w.mu.Unlock()
+				return
 			}
 		}
 	}
